@@ -118,6 +118,41 @@ pub fn run(case: &J) -> R<J> {
             tc.insert("proto".into(), set_to_cedar(&s2));
         }
         tc.insert("text_link".into(), json!(ps.policy(&PolicyId::new("l")).map(|l| l.to_cedar().is_some())));
+        // the link on its own: through the PST and through JSON it becomes a static policy with the same condition
+        // (scope and clauses with the slots substituted)
+        if let Some(l) = ps.policy(&PolicyId::new("l")) {
+            // projection: the condition with every slot replaced by the entity the policy binds it to
+            fn subst(j: &J, env: &HashMap<String, J>) -> J {
+                match j {
+                    J::Array(a) if a.len() == 2 && a[0] == "slot" => {
+                        a[1].as_str().and_then(|s| env.get(s)).map(|u| json!(["lit", u])).unwrap_or_else(|| j.clone())
+                    }
+                    J::Array(a) => J::Array(a.iter().map(|x| subst(x, env)).collect()),
+                    J::Object(m) => J::Object(m.iter().map(|(k, v)| (k.clone(), subst(v, env))).collect()),
+                    _ => j.clone(),
+                }
+            }
+            let cond = |q: &Policy| -> J {
+                let a: &ast::Policy = q.as_ref();
+                let mut envw: HashMap<String, J> = HashMap::new();
+                for (k, v) in q.template_links().unwrap_or_default() {
+                    envw.insert(if k == SlotId::principal() { "principal".into() } else { "resource".into() }, uid_to_wire(v.as_ref()));
+                }
+                json!({"effect": a.effect().to_string(), "cond": subst(&expr_to_wire(&a.condition()), &envw)})
+            };
+            let mut lk = Map::new();
+            lk.insert("orig".into(), cond(l));
+            lk.insert("pst".into(), l.to_pst().map_err(|x| x.to_string()).and_then(|x| Policy::from_pst(x).map_err(|x| x.to_string())).map(|q| cond(&q)).unwrap_or_else(e));
+            lk.insert("json".into(), l.to_json().map_err(|x| x.to_string()).and_then(|j| Policy::from_json(Some(PolicyId::new("l")), j).map_err(|x| x.to_string())).map(|q| cond(&q)).unwrap_or_else(e));
+            if let Ok(s2) = ps.to_pst().map_err(|x| x.to_string()).and_then(|x| PolicySet::from_pst(x).map_err(|x| x.to_string())) {
+                if let Some(l2) = s2.policy(&PolicyId::new("l")) {
+                    lk.insert("set_pst".into(), cond(l2));
+                    lk.insert("set_pst_json".into(), l2.to_json().map_err(|x| x.to_string()).and_then(|j| Policy::from_json(Some(PolicyId::new("l")), j).map_err(|x| x.to_string())).map(|q| cond(&q)).unwrap_or_else(e));
+                    lk.insert("set_pst_pst".into(), l2.to_pst().map_err(|x| x.to_string()).and_then(|x| Policy::from_pst(x).map_err(|x| x.to_string())).map(|q| cond(&q)).unwrap_or_else(e));
+                }
+            }
+            hops.insert("link".into(), J::Object(lk));
+        }
         hops.insert("to_cedar".into(), J::Object(tc));
     } else {
         let q0 = Policy::parse(Some(id.clone()), &text).map_err(|x| format!("policy parse: {x}\n{text}"))?;
